@@ -154,8 +154,12 @@ def c09_jobs(ctx):
                                                                                   "obj": "sphere", "minmax": r.choice(["min", "max"]), "seed": r.randint(0, 10**6)}})
         # list-valued parameters written the other way round (valid unless a validator says otherwise): in-place sorting / editing shows
         lists = {k: list(reversed(v)) for k, v in search.fixture_scale(nm).items() if isinstance(v, list) and len(v) > 1 and v != list(reversed(v))}
-        if lists:
-            jobs.append({"opt": nm, "cfg": {"max_cycles": 2, "fitness_error": None, **lists}, "task": search.cont_task(obj="sphere", seed=r.randint(0, 10**6))})
+        # one field at a time (a validator may reject one reversal and accept another), then all accepted ones together would add nothing
+        for k, v in sorted(lists.items()):
+            for mode in (None, "thread"):
+                j = {"opt": nm, "cfg": {"max_cycles": 2, "fitness_error": None, k: v}, "task": search.cont_task(obj="sphere", seed=r.randint(0, 10**6))}
+                if mode: j["mode"] = mode; j["workers"] = 2
+                jobs.append(j)
     return jobs
 
 
